@@ -6,7 +6,7 @@ V = os.path.abspath(os.path.join(os.path.dirname(__file__), '..'))
 
 # id -> (technique, level text, level note, design ref)
 CHECKS = {
- "C01": ("PBT (proptest): differential against a transliterated Blackman-Vigna reference model (output word and successor state)",
+ "C01": ("PBT (proptest): differential against a transliterated Blackman-Vigna reference model (output word and successor state); structured seeds, preimages of structured target states, stage-structured SplitMix64 counters",
          "Generated-input search: for each of the 15 generators thousands of seeds from edge-biased classes and step counts; every output and the successor state are compared with an independent transliteration of the published C sources. Faults in this branch-free word arithmetic are dense in the input space; a fault confined to a vanishing set of states would be missed.",
          "Trusts refmodel::vigna (validated at start-up against the published vectors and an independent Python model) and the crate's == for the successor-state comparison.", "3/C01"),
  "C02": ("PBT (proptest): differential against a spec-level HC-128 model (array form, no unrolling), two routes (Rng, Core::generate)",
@@ -18,10 +18,10 @@ CHECKS = {
  "C04": ("PBT (proptest): differential against Marsaglia's xor128 (outputs and state)",
          "Generated non-zero seeds x step counts, every next_u32 and the successor state compared with xor128.",
          "Trusts the 6-line xor128 model and the crate's ==.", "3/C04"),
- "C05": ("PBT (proptest), stateful: operation histories vs a projection model fed by a native-width twin; libFuzzer target fz_hist (thorough)",
+ "C05": ("PBT (proptest), stateful: random and block-boundary-focused operation histories (incl. >= 64 KiB fills, unaligned destinations) vs a projection model fed by a native-width twin; libFuzzer target fz_hist (thorough)",
          "Histories of next_u32/next_u64/fill_bytes(n) from every buffer index for 19 types + scripted JitterRng; each returned value is predicted from the twin's native word stream by projection rules written from the statement; final re-synchronisation catches skipped/repeated words.",
          "The native stream comes from a twin instance of the same type (construction determinism is C10/C19's subject). The zero-length-fill case of Isaac64Rng is two-valued because the statement is silent.", "4/C05"),
- "C06": ("PBT (proptest) + GF(2) algebra: jump()/long_jump() vs T^(2^(n/2)), T^(2^(3n/4)) with T extracted from the running code; all basis states + generated states, linearity, metamorphic commutation",
+ "C06": ("PBT (proptest) + GF(2) algebra: jump()/long_jump() vs T^(2^(n/2)), T^(2^(3n/4)) with T extracted from the running code; all basis states + generated states + preimages of structured targets, linearity, metamorphic commutation",
          "The step matrix T is read off the real code on the n basis states; J and L by repeated squaring; jump/long_jump are executed on all basis states and on generated states and must land on J*s / L*s; linearity of jump on generated pairs extends the basis result to all states; model-free commutation relations in addition.",
          "Assumes GF(2)-linearity of next and jump outside the sampled states (BLR-sampled); state observation through validated serde images.", "5/C06"),
  "C07": ("PBT (proptest) + GF(2) algebra: extracted step matrix, rank, Berlekamp-Massey minimal polynomial of real state sequences, primitivity via the full factorisation of 2^n-1; cycle probes",
@@ -30,16 +30,16 @@ CHECKS = {
  "C08": ("PBT (proptest): validity predicates over every constructor with zero/near-zero seeds, special u64s and zero-block sources; near-equal seed pairs",
          "Every seeding path of the 15 linear types with hostile inputs: result != zero-state generator, documented replacement, verbatim use, zero blocks remapped/redrawn with exact byte accounting, distinct seeds give != generators.",
          "Zero-state generator and state images through the public serde implementations.", "5/C08"),
- "C09": ("PBT (proptest) with fault injection: seeding routes vs independently computed documented expansions; byte-scripted and failing sources",
+ "C09": ("PBT (proptest) with fault injection: seeding routes vs independently computed documented expansions; byte-scripted, method-inconsistent, real-generator and failing sources with exact byte accounting",
          "seed_from_u64 for generated x against SplitMix64/PCG32/ISAAC-key models; from_rng/try_from_rng against the model built from exactly the bytes handed out with exact byte counts; failing sources at every position must propagate exactly their error.",
          "Expansion models are independent re-implementations of the documented schemes.", "5/C09"),
- "C10": ("PBT (proptest), stateful: clone/== congruence over histories, near-equal and serde-crafted pairs, Hc128 position clause, public cores",
+ "C10": ("PBT (proptest), stateful: clone / clone_from / == congruence over histories, near-equal and serde-crafted pairs (every field, all 1- and 2-bit seed differences enumerated), Hc128 position clause, public cores",
          "clone == original and identical futures incl. jumps; for pairs built to be (nearly) equal: a == b implies identical continuation and preserved equality; Hc128Rng at different positions of a block must be !=.",
          "Crafted states avoid BlockRng's index/half_used bookkeeping (states no generator can serialize).", "4/C10"),
  "C11": ("PBT (proptest), stateful round-trip: serde snapshot (bincode, JSON) at generated points vs original vs never-serialized twin",
          "Snapshot at every buffer index / half-used state / after jumps; restored, original and twin must agree on a generated continuation that crosses refills; restored == original.",
          "Two serde back-ends (bincode, serde_json).", "4/C11"),
- "C12": ("PBT (proptest), stateful: JitterRng over scripted timers vs a spec-level Jitterentropy 2.1.0 model (values and timer-read counts); libFuzzer target fz_jitter (thorough)",
+ "C12": ("PBT (proptest), stateful: JitterRng over scripted timers (reading- and measurement-level programs, hostile deltas, long stuck runs, result-targeted pools via the hook) vs a spec-level Jitterentropy 2.1.0 model (values and timer-read counts); libFuzzer target fz_jitter (thorough)",
          "The harness owns the timer: delta programs incl. stuck patterns and hostile deltas x histories of all public calls; value and cumulative read count compared after every call.",
          "Trusts refmodel::jitter (written from the documentation in feedback form; validated against the Python model).", "6/C12"),
  "C13": ("PBT (proptest): constructive 400-probe timers aimed at every decision boundary vs a validity predicate; libFuzzer target fz_timer (thorough)",
@@ -60,7 +60,7 @@ CHECKS = {
  "C18": ("cross-configuration differential: one proptest-generated corpus replayed by vdigest built in {O0,O3} x {checks on,off} x {serde on,off}",
          "6900 (thorough 69000) generated cases over all generator types, cores and scripted JitterRng replayed in 4 (8) build configurations; digests must agree line by line; a disagreement is delta-debugged with the two binaries as oracle.",
          "Only x86-64 is buildable here.", "6/C18"),
- "C19": ("PBT (proptest) with a harness-owned scheduler over real OS threads + unsynchronised parallel runs + compiled Send/Sync probe",
+ "C19": ("PBT (proptest) with a harness-owned scheduler over real OS threads + unsynchronised parallel runs + fresh-process solo traces + enumerated 1-/2-bit seed pairs + compiled Send/Sync probe",
          "Generated multi-instance scenarios with generated interleavings and thread migrations; every instance's trace must equal its solo replay before and after; free-running parallel groups; static Send+Sync assertions compiled against the tree.",
          "Interleavings inside one operation are not enumerated; JITTER_ROUNDS is outside the deterministic oracle.", "4/C19"),
 }
